@@ -344,16 +344,7 @@ impl<K: CacheKey + 'static> DiskCache<K> {
             file.flush().map_err(CacheError::Io)?;
 
             // Force data to disk for durability in cache operations
-            #[cfg(unix)]
-            {
-                use std::os::unix::io::AsRawFd;
-                // SAFETY: fsync is called on a valid file descriptor obtained from a File.
-                // The file is guaranteed to be open and valid at this point.
-                #[allow(unsafe_code)]
-                unsafe {
-                    libc::fsync(file.as_raw_fd());
-                }
-            }
+            file.sync_all().map_err(CacheError::Io)?;
         }
 
         // Atomic rename
